@@ -169,6 +169,19 @@ CLAIMED = {
         "extracted enum_M; key equality of settings pairs is compared with the extracted key_eq.",
    note=BASE + "Partial: only the installed numeric stack is exercised; crashes during a cache write are not modelled; md5 and Python's tuple hash are taken as collision free. F1 fixed by a0e230c.",
    technique="Coq theorems about an extracted Gallina model + differential correspondence with the implementation", design="§6 C12"),
+ 'C08': dict(
+   text="Theorems: in the heap of immutable graph values to which every operation (copy, apply selection/connection choice, "
+        "constrain on a copy, decode) appends a function of an existing value, no operation sequence changes an existing object "
+        "and therefore no observation of it; storing a value changes that object and no other; a derived object is the function "
+        "of its parent whatever happened in between; for grouping connectors, whose aggregated degree the implementation keeps in "
+        "one cell shared by all graphs, a read after refreshing the cell for the graph at hand is stable under any further "
+        "derivations while a read of the shared cell is refuted by a two-derivation witness (the defect F6). Generated histories "
+        "over selection and connection design spaces (grouping nodes with conditional members): after every operation every live "
+        "graph is re-observed (nodes, edges, feasible, final, next choices, option lists, connection sets, connector degree "
+        "settings, stored values) in alternating order and compared with its observation at creation; the history is replayed in "
+        "the extracted heap model on interned observations.",
+   note=BASE + "Partial: that each first observation is the right one is decided by C02/C06/C11; attributes read directly from shared node objects are not per-graph observations and are not compared. F6 fixed by 04fe5a0.",
+   technique="Coq theorems about an extracted Gallina model + differential correspondence with the implementation", design="§6 C08"),
 }
 NA_REASON = "machinery under construction in this round; not yet claimed"
 
